@@ -66,6 +66,7 @@ inductive Event where
   | approved (id : Nat) (by_ : Nat)
   | approvedBatch (ids : List Nat) (by_ : Nat)
   | cancelled (id : Nat)
+  | cancelledBatch (ids : List Nat)
   | executed (id : Nat) (ix : Ix)
   deriving DecidableEq, Repr
 
@@ -77,6 +78,7 @@ inductive Op where
   | approve (now : Int) (caller id r : Nat)
   | approveb (now : Int) (caller r : Nat) (ids : List Nat)
   | cancel (now : Int) (caller id r rr : Nat)
+  | cancelb (now : Int) (caller r rr : Nat) (ids : List Nat)
   | exec (now : Int) (caller id r rr : Nat)
   | delay (now : Int) (caller delta : Nat)
 
@@ -120,6 +122,16 @@ def cancel (s : St) (caller id r rr : Nat) : Option St :=
     if b.rentReceiver ≠ rr then none else
     if !s.mem caller ADMIN then none else
     some (setBuf s id none)
+
+/-- `cancel_instructions` (batch over the remaining accounts; `access_control` TIMELOCK_ADMIN): for every buffer in
+order `require_keys_eq!(header.executor, executor)`, `require_keys_eq!(header.rent_receiver, rent_receiver)`, then
+`close` to the rent receiver. Any failing buffer (foreign executor, other rent receiver, missing, listed twice — it is
+already closed at its second occurrence) aborts the transaction: all or nothing. -/
+def cancelBatch (s : St) (caller r rr : Nat) : List Nat → Option St
+  | [] => if s.mem caller ADMIN then some s else none
+  | id :: ids => match cancel s caller id r rr with
+    | some s' => cancelBatch s' caller r rr ids
+    | none => none
 
 def exec (s : St) (now : Int) (caller id r rr : Nat) : Option (St × Ix) :=
   match s.bufs id with
@@ -169,6 +181,10 @@ def step (s : St) : Op → St × Event
   | .cancel _ caller id r rr =>
     match cancel s caller id r rr with
     | some s' => (s', .cancelled id)
+    | none => (s, .none)
+  | .cancelb _ caller r rr ids =>
+    match cancelBatch s caller r rr ids with
+    | some s' => (s', .cancelledBatch ids)
     | none => (s, .none)
   | .exec now caller id r rr =>
     match exec s now caller id r rr with
